@@ -94,6 +94,15 @@ func (w *originWalker) walk(v ssa.Value, via []string) {
 	case *ssa.Extract:
 		if call, ok := x.Tuple.(*ssa.Call); ok {
 			w.call(call, x.Index, via)
+		} else if nx, ok := x.Tuple.(*ssa.Next); ok {
+			// key / element of a range loop: comes from the ranged container
+			if rg, ok := nx.Iter.(*ssa.Range); ok {
+				w.walk(rg.X, append(via, "range"))
+			} else {
+				w.add(Origin{"other", "range element", v, via})
+			}
+		} else if lk, ok := x.Tuple.(*ssa.Lookup); ok {
+			w.walk(lk.X, append(via, "lookup"))
 		} else {
 			w.add(Origin{"other", fmt.Sprintf("%T", x.Tuple), v, via})
 		}
